@@ -323,10 +323,17 @@ type poolItem struct {
 	vc vclock
 }
 
-// PoolGet is the Pool shim's Get under an exploration. The pool is a per-execution LIFO: a Get
-// returns the value Put most recently, by whichever thread — real sync.Pool may or may not
-// hand a value to another P, so the reuse interleaving must exist for the explorer to judge
-// it. ok=false: the pool is empty (the shim calls New). handled=false: no exploration active.
+// PoolGet is the Pool shim's Get under an exploration. The pool is a per-execution multiset
+// shared by all threads, and what sync.Pool documents is modelled as a DATA CHOICE of the
+// caller: a Get may return ANY value Put before (by whichever thread -- the real pool may or
+// may not hand a value to another P) or none of them (the pool may drop values at any time;
+// the shim then calls New). The explorer branches over every alternative: alternative 0 (the
+// default) is the value Put most recently, then the older ones (at most maxDataChoice-1 of
+// them), last "none: a fresh value". A value that was Put twice sits in the pool twice and can
+// be handed to two callers: the shim does not judge pool misuse itself, its effect is judged by
+// the differential and the race oracles. ok=false: the caller gets a fresh value (the shim
+// calls New). handled=false: no exploration active. During the single-threaded setup / prefix
+// phase the answer is the default alternative.
 func PoolGet(p unsafe.Pointer) (v any, ok, handled bool) {
 	x, t := current()
 	if x == nil {
@@ -342,8 +349,17 @@ func PoolGet(p unsafe.Pointer) (v any, ok, handled bool) {
 	if len(items) == 0 {
 		return nil, false, true
 	}
-	it := items[len(items)-1]
-	x.pools[uintptr(p)] = items[:len(items)-1]
+	n := len(items)
+	if n > maxDataChoice-1 {
+		n = maxDataChoice - 1
+	}
+	alt := x.choose(t, n+1, uintptr(p))
+	if alt == n {
+		return nil, false, true // none of the pooled values: the values stay pooled
+	}
+	i := len(items) - 1 - alt
+	it := items[i]
+	x.pools[uintptr(p)] = append(items[:i:i], items[i+1:]...)
 	if t != nil {
 		t.vc.join(it.vc)
 	}
